@@ -44,6 +44,7 @@ SCENARIOS = [
     ("insert-with-id-after-idle", ["insert", "insert"], "insert_with_id"),       # the single-event form, the event carries a live id
     ("insert-with-id-after-read", ["insert", "read"], "insert_with_id"),
     ("bulk-of-100-after-idle", ["insert"], "bulk", 7),
+    ("replace-last-on-an-empty-bucket-after-idle", [], "replace_last"),
     ("reopened-then-idle", ["insert", "insert", "read", "reopen_main"], "insert"),     # the first write of a process that opened an existing database
     ("reopened-then-idle-replace-last", ["insert", "read", "reopen_main"], "replace_last"),     # another store of the process writes / is reopened just before the late write
 ]
@@ -117,7 +118,7 @@ def _op(kind, rng_pick=0):
         return dict(_op(kind[6:], rng_pick), store="other") if kind[6:] != "reopen" else dict(op="reopen", store="other")
     if kind.startswith("fail:"):
         return dict(op="fail", b="b", what=kind[5:], ev=ev, ev2=dict(ev, data={"uid": _uid[0] + 10**7}))
-    return dict(op=kind, b="b", ev=ev, pick=rng_pick)
+    return dict(op=kind, b="b", ev=ev, pick=rng_pick, empty_ok=True)
 
 
 BULK_SIZES = [3, 1, 2, 3, 5, 30, 51, 100, 101, 130, 250, 3, 3]
